@@ -225,6 +225,74 @@ func c11Relayout(stmt string, kwCase int, sep string) string {
 	return sb.String()
 }
 
+// c11Tokenize splits a statement into tokens: quoted runs, words, and single punctuation bytes (blanks dropped).
+func c11Tokenize(stmt string) []string {
+	var out []string
+	isWord := func(c byte) bool {
+		return c == '_' || c == '.' || c >= 'a' && c <= 'z' || c >= 'A' && c <= 'Z' || c >= '0' && c <= '9'
+	}
+	for i := 0; i < len(stmt); {
+		c := stmt[i]
+		switch {
+		case c == '\'' || c == '`' || c == '"':
+			j := i + 1
+			for j < len(stmt) && stmt[j] != c {
+				j++
+			}
+			if j < len(stmt) {
+				j++
+			}
+			out = append(out, stmt[i:j])
+			i = j
+		case c == ' ':
+			i++
+		case isWord(c):
+			j := i
+			for j < len(stmt) && isWord(stmt[j]) {
+				j++
+			}
+			out = append(out, stmt[i:j])
+			i = j
+		default:
+			out = append(out, string(c))
+			i++
+		}
+	}
+	return out
+}
+
+// c11Join renders tokens with single blanks, or densely: a blank only where two word-like tokens would fuse.
+func c11Join(toks []string, dense bool) string {
+	if !dense {
+		return strings.Join(toks, " ")
+	}
+	wordy := func(t string) bool {
+		if t == "" {
+			return false
+		}
+		c := t[0]
+		e := t[len(t)-1]
+		w := func(c byte) bool {
+			return c == '_' || c == '.' || c >= 'a' && c <= 'z' || c >= 'A' && c <= 'Z' || c >= '0' && c <= '9'
+		}
+		return w(c) || w(e)
+	}
+	var sb strings.Builder
+	for i, t := range toks {
+		if i > 0 && wordy(toks[i-1]) && wordy(t) {
+			sb.WriteByte(' ')
+		}
+		sb.WriteString(t)
+	}
+	return sb.String()
+}
+
+// c11EditStatements: the statements whose one-edit neighbourhood the totality sweep parses (c11CutStatements plus
+// calls with many arguments at the very start and in WHERE).
+var c11EditStatements = append(append([]string{}, c11CutStatements...),
+	"SELECT concat(a, b, c, d, e, f, g, h) AS c8, x FROM stream WHERE coalesce(a, b, c, d, e, f, g, h, i, j) > 1",
+	"SELECT round(a + b + c + d + e + f + g, 2) AS r, x FROM stream GROUP BY k, CountingWindow(3)")
+
 // c11NameSets: identifiers that contain or begin with keywords (ORDER, FROM, DESC, GROUP, LIMIT, IS, NULL,
 // AS, AND, WHERE, CASE, BY, HAVING, END, LIKE, NOT, IN, ON, SELECT, UNION ...). A statement written with them must
 // parse like the same statement with neutral names.
@@ -613,7 +681,40 @@ func (c11) Run(u fw.Unit) fw.Result {
 				}
 			}
 		}
-		a.sample(map[string]any{"prefixes": c11Prefixes, "hostile_bytes": fmt.Sprintf("%q", c11HostileBytes), "truncated_statements": len(c11CutStatements)})
+		// one-edit neighbourhood: every statement with one token deleted, duplicated, misspelt (a word gets a letter
+		// appended: an unknown function, keyword or column) or replaced by one of five tokens, each in two layouts
+		// (single blanks; dense - a blank only where two words would fuse)
+		edits := 0
+		for _, st := range c11EditStatements {
+			toks := c11Tokenize(st)
+			for i := range toks {
+				var variants [][]string
+				cut := append(append([]string{}, toks[:i]...), toks[i+1:]...)
+				variants = append(variants, cut)
+				dup := append(append(append([]string{}, toks[:i+1]...), toks[i]), toks[i+1:]...)
+				variants = append(variants, dup)
+				repl := []string{"(", ")", ",", "'", "1"}
+				if c := toks[i][0]; c == '_' || c >= 'a' && c <= 'z' || c >= 'A' && c <= 'Z' {
+					repl = append(repl, toks[i]+"t")
+				}
+				for _, r := range repl {
+					v := append([]string{}, toks...)
+					v[i] = r
+					variants = append(variants, v)
+				}
+				for _, v := range variants {
+					for _, dense := range []bool{false, true} {
+						idx++
+						if idx%sp.Shards != sp.Shard {
+							continue
+						}
+						edits++
+						total(c11Join(v, dense))
+					}
+				}
+			}
+		}
+		a.sample(map[string]any{"prefixes": c11Prefixes, "hostile_bytes": fmt.Sprintf("%q", c11HostileBytes), "truncated_statements": len(c11CutStatements), "edited_statements": len(c11EditStatements), "edits_this_shard": edits})
 	case "match":
 		c11RunMatches(a)
 		c11RunWithin(a)
